@@ -17,7 +17,7 @@ RULE = ('Three generators of specification texts: (1) grammar-derived files (typ
         'wrapped with specification header, declarations, constants, several assertions, comments, odd whitespace); (2) token-level '
         'mutations of (1): delete/duplicate/swap/replace a token, truncate, insert characters outside the lexer alphabet, append trailing '
         'tokens, swap interval bounds, hex/binary literals, undeclared bound constant, undeclared identifier, dotted identifiers; (3) token '
-        'soup of 1-40 vocabulary tokens. Oracle: parse() returns or raises RTAMTException only; if it returns, an independent tokenizer '
+        'soup of 1-40 vocabulary tokens; thorough tier: (4) coverage-guided atheris/libFuzzer campaigns over token sequences with the same oracle inside the target. Oracle: parse() returns or raises RTAMTException only; if it returns, an independent tokenizer '
         '+ recogniser (vlib/lang.py) accepts the text, no character was skipped, every interval satisfies 0 <= begin <= end, every bound '
         'identifier is a declared constant, and the first evaluate() on a 4-sample data set supplying every referenced variable returns '
         'or raises RTAMTException. Non-trivial = rejected at a position after the first token, or accepted with >= 1 temporal operator; '
